@@ -40,37 +40,39 @@ def unhex_bytes(h):
     return b"" if h == "-" else bytes.fromhex(h)
 
 
+_TOK = None
+
+
 def parse_sexp(text):
     """one S-expression -> nested lists of str atoms.  Iterative (results can be deeply nested)."""
+    global _TOK
+    if _TOK is None:
+        import re
+        _TOK = re.compile(r"[()]|[^\s()]+")
     stack = [[]]
-    i, n = 0, len(text)
-    while i < n:
-        c = text[i]
-        if c == "(":
+    cur = stack[0]
+    for t in _TOK.findall(text):
+        if t == "(":
             new = []
-            stack[-1].append(new)
+            cur.append(new)
             stack.append(new)
-            i += 1
-        elif c == ")":
+            cur = new
+        elif t == ")":
             if len(stack) == 1:
-                raise ValueError("unbalanced ')' at %d" % i)
+                raise ValueError("unbalanced ')'")
             stack.pop()
-            i += 1
-        elif c in " \t\r\n":
-            i += 1
+            cur = stack[-1]
         else:
-            j = i
-            while j < n and text[j] not in "() \t\r\n":
-                j += 1
-            stack[-1].append(text[i:j])
-            i = j
-    if len(stack) != 1 or len(stack[0]) != 1:
+            cur.append(t)
+    if len(stack) != 1 or len(cur) != 1 or not isinstance(cur[0], list):
         raise ValueError("not exactly one balanced S-expression")
-    return stack[0][0]
+    return cur[0]
 
 
 def show_sexp(x):
     """nested lists -> text (iterative)"""
+    if x is None:
+        return "<absent>"
     out = []
     work = [x]
     while work:
@@ -106,16 +108,39 @@ def contains_tag(x, tag):
 
 
 class Result:
-    """parsed `(result ID FIELD...)` line"""
+    """`(result ID FIELD...)` line; parsed lazily on first access (`.sexp`, `.fields`, any accessor)."""
 
-    def __init__(self, sexp, line=None):
-        self.sexp = sexp
+    def __init__(self, line, gid=None):
         self.line = line
-        self.id = sexp[1] if len(sexp) > 1 and isinstance(sexp[1], str) else "?"
-        self.fields = {}
-        for f in sexp[2:]:
-            if isinstance(f, list) and f and isinstance(f[0], str):
-                self.fields[f[0]] = f
+        self.id = gid
+        self._sexp = None
+        self._fields = None
+
+    def _parse(self):
+        if self._sexp is None:
+            try:
+                sexp = parse_sexp(self.line)
+                if not sexp or sexp[0] != "result":
+                    raise ValueError("not a result line")
+            except ValueError as e:
+                sexp = ["result", self.id or "?", ["toolerror", hexs("unparsable output line: %s" % e)]]
+            self._sexp = sexp
+            if self.id is None:
+                self.id = sexp[1] if len(sexp) > 1 and isinstance(sexp[1], str) else "?"
+            self._fields = {}
+            for f in sexp[2:]:
+                if isinstance(f, list) and f and isinstance(f[0], str):
+                    self._fields[f[0]] = f
+
+    @property
+    def sexp(self):
+        self._parse()
+        return self._sexp
+
+    @property
+    def fields(self):
+        self._parse()
+        return self._fields
 
     def field(self, name):
         return self.fields.get(name)
@@ -204,10 +229,10 @@ class Result:
         for r in (f or [])[1:]:
             d = {}
             for g in r[1:]:
-                if g and g[0] == "unknown":
-                    d["?"] = {"type": g, "path": g, "boxed": "?"}
+                if len(g) != 4:          # `(unknown HEX)`: an impl item that is not a getter fn
+                    d.setdefault("?", []).append(g)
                     continue
-                d[g[0]] = {"type": g[1], "path": g[2], "boxed": g[3][1] if len(g) > 3 else "?"}
+                d[g[0]] = {"type": g[1], "path": g[2], "boxed": g[3][1]}
             out[r[0]] = d
         return out
 
@@ -215,10 +240,33 @@ class Result:
         f = self.field("enum")
         return list(f[1:]) if f else None
 
+    def anomalies(self):
+        """list of things the extractor could not classify (empty for everything the current generator emits
+        without grammar-extras).  Structure-aware: rule and getter NAMES are never mistaken for markers."""
+        bad = ("unknown", "tok", "k", "ignored")
+        out = []
+        for x in (self.field("typed") or [])[1:]:
+            h = x[0] if x else None
+            if h == "skip":
+                if x[1] == ["missing"] or any(contains_tag(x[1], b) for b in bad):
+                    out.append(("skip", x[1]))
+            elif h == "rule":
+                if len(x) != 6 or any(contains_tag(y, b) for y in x[2:] for b in bad):
+                    out.append(("rule", x[1]))
+            elif h not in ("wrappers", "alias", "eoi"):
+                out.append(("typed", x))
+        for x in (self.field("generics") or [])[1:]:
+            if not isinstance(x, str):
+                out.append(("generics", x))
+        for r in (self.field("getters") or [])[1:]:
+            for g in r[1:]:
+                if (len(g) != 4 or not isinstance(g[0], str) or g[3] not in (["boxed", "0"], ["boxed", "1"])
+                        or any(contains_tag(y, b) for y in g[1:3] for b in bad)):
+                    out.append(("getter", r[0], g[0] if g else None))
+        return out
+
     def has_unknown(self):
-        return any(contains_tag(self.field(n), "unknown") or contains_tag(self.field(n), "rule_unparsed")
-                   or contains_tag(self.field(n), "unparsable")
-                   for n in ("typed", "generics", "getters") if self.has(n))
+        return bool(self.anomalies())
 
     def used_generics(self):
         """names of the `generics` module that the emitted rule types use (from the texprs), to be compared
@@ -390,13 +438,7 @@ def dump(grammars, exe=None, features=None, jobs=None, chunk=None, timeout=None,
         for l in part:
             gid = ids[k]
             k += 1
-            if raw:
-                result[gid] = l
-                continue
-            try:
-                result[gid] = Result(parse_sexp(l), l)
-            except ValueError as e:
-                result[gid] = Result(parse_sexp(_synth_error(gid, "unparsable output line: %s" % e)), l)
+            result[gid] = l if raw else Result(l, gid)
     assert k == n
     return result
 
@@ -417,17 +459,70 @@ def dump_fresh_processes(grammar, opts=None, n=4, exe=None, features=None):
         os.makedirs(cwd, exist_ok=True)
         env = {"VERIF_NONCE": str(i), "VERIF_PAD_%d" % i: "x" * (17 * i)}
         res, rc, err = _run_once(exe, [line], 120, env=env, cwd=cwd)
-        h = None
-        if res:
-            try:
-                h = Result(parse_sexp(res[0]), res[0]).tokens
-            except ValueError:
-                h = None
-        hashes.append(h)
+        hashes.append(Result(res[0], "d").tokens if res else None)
     return hashes
 
 
 # ------------------------------------------------------------------ self-test:  python3 -m vlib.gendump
+
+def _ref_translate(rules, optimized):
+    """Plain transcription of graph/optimized_rule.rs / graph/rule.rs on the dumped AST, used ONLY by selftest()
+    to sanity-check the syn extraction (the real specification is the Coq `translate`).
+    rules: [(name, kind, expr)] -> {name: (atom, emis, texpr)}"""
+    defined = {n for (n, _, _) in rules}
+
+    def chain(e, tag):
+        items = []
+        while e[0] == tag:
+            items.append(e[1])
+            e = e[2]
+        items.append(e)
+        return items
+
+    def tr(e, k):
+        h = e[0]
+        if h in ("str", "insens"):
+            return [h, e[1]]
+        if h == "range":
+            return ["range", e[1], e[2]]
+        if h == "ident":
+            return ["rule", e[1], k if e[1] in defined else "default"]
+        if h == "peekslice":
+            return ["slice", e[1], e[2]]
+        if h == "pospred":
+            return ["pos", tr(e[1], k)]
+        if h == "negpred":
+            return ["neg", tr(e[1], k)]
+        if h == "seq":
+            return ["seq", k] + [tr(x, k) for x in chain(e, "seq")]
+        if h == "choice":
+            return ["choice"] + [tr(x, k) for x in chain(e, "choice")]
+        if h == "opt":
+            return ["opt", tr(e[1], k)]
+        if h == "rep":
+            return ["rep", k, "0", "none", tr(e[1], k)]
+        if h == "reponce":
+            return ["rep", k, "1", "none", tr(e[1], k)]
+        if h in ("repexact", "repmin", "repmax"):
+            return [h, k, e[2], tr(e[1], k)]
+        if h == "repminmax":                       # emitted under the name RepMax with two bounds (rule.rs:401)
+            return ["repmax", k, e[2], e[3], tr(e[1], k)]
+        if h == "skip":
+            return ["skipuntil", e[1]]
+        if h == "push":
+            return ["push", tr(e[1], k)]
+        if h in ("restore", "tag"):
+            return tr(e[-1], k)
+        raise ValueError(h)
+
+    out = {}
+    for (n, kind, e) in rules:
+        atom, emis, k = {"normal": ("inh", "both", "inh"), "silent": ("inh", "expr", "inh"),
+                         "atomic": ("true", "span", "off"), "compound": ("true", "both", "off"),
+                         "nonatomic": ("false", "both", "on")}[kind]
+        out[n] = (atom, emis, tr(e, k))
+    return out
+
 
 def selftest(verbose=True):
     """dump the three grammars of the repository under several option sets and assert basic sanity."""
@@ -469,8 +564,23 @@ def selftest(verbose=True):
             log("%s %s opts=%s: %d rules, %d wrappers, skip=%s, undefined generics=%s" % (
                 gid, os.path.basename(os.path.dirname(os.path.dirname(files[int(gid[1])]))), o, len(names),
                 r.wrappers(), show_sexp(r.skip_def()), sorted(missing)))
+        optimized = o.get("pest_optimizer", True)
+        ref = _ref_translate(r.ast("ast_opt" if optimized else "ast_raw"), optimized)
         for n, d in typed.items():
-            assert d["atom"] in ("true", "false", "inh") and d["emis"] in ("span", "expr", "both")
+            assert (d["atom"], d["emis"], d["texpr"]) == ref[n], (gid, n, show_sexp(d["texpr"]), show_sexp(ref[n][2]))
+            assert d["boxed"] == "true" or o.get("box_only_if_needed"), (gid, n)
+            assert not d["extras"]
+        if gid == "f0_o1":
+            # compare with the golden file generator/tests/syntax-expected.rs (Regular::CharRange, line 197-260)
+            g = r.getters()["Regular"]["CharRange"]
+            assert show_sexp(g["type"]) == ("(tuple (tuple (ref CharRange inh) (vec (ref CharRange inh))) "
+                                            "(ref CharRange inh) (vec (ref CharRange inh)))"), show_sexp(g["type"])
+            assert show_sexp(g["path"]) == ("(tuple (seqi 0 (tuple (seqi 0 res) (seqi 1 (contents res)))) "
+                                            "(seqi 2 res) (seqi 3 (contents res)))"), show_sexp(g["path"])
+            assert g["boxed"] == "1"
+            if verbose:
+                for rn in ("Regular", "Opt", "Choice", "Neg"):
+                    log("   getters of %s: %s" % (rn, show_sexp([rn] + [[k, v["type"], v["path"]] for k, v in r.getters()[rn].items()])))
     bad = [("b0", "a = { a }"), ("b1", 'a = { "x"* * }'), ("b2", 'a = { (!"x")* }'), ("b3", "a = { b }"),
            ("b4", "a = {"), ("b5", 'a = { ("")* }'), ("b6", 'a = { "x" } a = { "y" }'), ("b7", 'ANY = { "x" }')]
     outb = dump([(i, t, {}) for (i, t) in bad] + [(i + "r", t, {"pest_optimizer": False}) for (i, t) in bad])
@@ -498,9 +608,14 @@ def selftest(verbose=True):
     outs = dump(small, jobs=1, chunk=4000)
     dt1 = time.time() - t1
     assert all(outs[g[0]].gen_ok for g in small)
+    t2 = time.time()
+    outp = dump([("p%d" % i, g[1], g[2]) for i, g in enumerate(small * 4)])
+    dt2 = time.time() - t2
+    assert all(r.gen_ok for r in outp.values())
+    assert len({outp["p%d" % i].tokens for i in (0, 4000, 8000, 12000)}) == 1
     if verbose:
-        log("15 file dumps: %.2fs; 4000 small grammars in ONE process: %.2fs (%.0f/s); determinism hashes equal: %s"
-            % (dt, dt1, 4000 / dt1, hs[0][:16]))
+        log("15 file dumps: %.2fs; 4000 small grammars in ONE process: %.2fs (%.0f/s); 16000 in parallel: %.2fs "
+            "(%.0f/s); determinism hashes equal: %s" % (dt, dt1, 4000 / dt1, dt2, 16000 / dt2, hs[0][:16]))
     return True
 
 
